@@ -112,3 +112,16 @@ impl Program {
         )
     }
 }
+
+#[cfg(basic_lang_verif)]
+impl Program {
+    pub fn verif_data_pos(&self) -> Address {
+        self.link.verif_data_pos()
+    }
+    pub fn verif_data_len(&self) -> usize {
+        self.link.verif_data_len()
+    }
+    pub fn verif_code_len(&self) -> usize {
+        self.link.len()
+    }
+}
